@@ -7,6 +7,9 @@
 //	lock w|r      start Lock(ctx) with a fresh context in its own goroutine
 //	trylock w|r   TryLock, synchronously
 //	atrylock w|r  TryLock from a new goroutine (races the critical sections of other calls)
+//	llock w|r     Locker()/RLocker().Lock() in its own goroutine (logged as a lock call)
+//	lunlock w|r   Locker.Unlock(), logged as the release of the most recent still-held locker lock
+//	              of that mode (readers are interchangeable, see DESIGN §6 C01)
 //	release i     call the release function of lock step i (skipped unless it returned one)
 //	arelease i    the same from a new goroutine
 //	cancel i      cancel the context of lock step i
@@ -34,6 +37,7 @@ import (
 type lockCall struct {
 	id     int
 	cancel context.CancelFunc
+	noCtx  bool // the call has no cancellable context (TryLock, Locker.Lock)
 	mu     sync.Mutex
 	rel    func()
 }
@@ -69,6 +73,32 @@ func exec(rw bool) func(script []string, opt comp.Options) comp.Result {
 
 		var calls []*lockCall
 		var wg sync.WaitGroup
+		// lockers: one shared sync.Locker per mode; held[mode] = ids of returned, not yet unlocked Locker.Lock calls
+		var lmu sync.Mutex
+		lockers := map[string]sync.Locker{}
+		held := map[string][]int{}
+		getLocker := func(w bool) sync.Locker {
+			lmu.Lock()
+			defer lmu.Unlock()
+			k := "r"
+			if w {
+				k = "w"
+			}
+			if l := lockers[k]; l != nil {
+				return l
+			}
+			var l sync.Locker
+			switch {
+			case !rw:
+				l = mtx.Locker()
+			case w:
+				l = rwm.Locker()
+			default:
+				l = rwm.RLocker()
+			}
+			lockers[k] = l
+			return l
+		}
 		mode := func(s string) (bool, string) {
 			if !rw {
 				return true, "w"
@@ -104,7 +134,7 @@ func exec(rw bool) func(script []string, opt comp.Options) comp.Result {
 				}()
 			case "trylock", "atrylock":
 				w, ms := mode(f[1])
-				c := &lockCall{cancel: func() {}}
+				c := &lockCall{cancel: func() {}, noCtx: true}
 				c.id = log.Inv("trylock %s", ms)
 				calls = append(calls, c)
 				do := func() {
@@ -124,6 +154,37 @@ func exec(rw bool) func(script []string, opt comp.Options) comp.Result {
 					wg.Add(1)
 					go func() { defer wg.Done(); do() }()
 				}
+			case "llock":
+				w, ms := mode(f[1])
+				l := getLocker(w)
+				c := &lockCall{cancel: func() {}, noCtx: true}
+				c.id = log.Inv("lock %s", ms)
+				calls = append(calls, c)
+				tags.Add("locker")
+				wg.Add(1)
+				go func() {
+					defer wg.Done()
+					l.Lock()
+					log.Ret(c.id, "lock ok %s", ms)
+					lmu.Lock()
+					held[ms] = append(held[ms], c.id)
+					lmu.Unlock()
+				}()
+			case "lunlock":
+				w, ms := mode(f[1])
+				l := getLocker(w)
+				lmu.Lock()
+				n := len(held[ms])
+				if n == 0 {
+					lmu.Unlock()
+					continue
+				}
+				t := held[ms][n-1]
+				held[ms] = held[ms][:n-1]
+				lmu.Unlock()
+				id := log.Inv("release %d", t)
+				l.Unlock()
+				log.Ret(id, "release")
 			case "release", "arelease":
 				i, _ := strconv.Atoi(f[1])
 				if i >= len(calls) {
@@ -147,7 +208,7 @@ func exec(rw bool) func(script []string, opt comp.Options) comp.Result {
 				}
 			case "cancel":
 				i, _ := strconv.Atoi(f[1])
-				if i >= len(calls) {
+				if i >= len(calls) || calls[i].noCtx {
 					continue
 				}
 				log.Add("env cancel %d", calls[i].id)
@@ -170,6 +231,25 @@ func exec(rw bool) func(script []string, opt comp.Options) comp.Result {
 		for _, c := range calls {
 			c.cancel()
 		}
+		// release every lock still held so that Locker.Lock calls (which cannot be cancelled) return
+		go func() {
+			for i := 0; i < 200; i++ {
+				for _, c := range calls {
+					if rel := c.getRel(); rel != nil {
+						rel()
+					}
+				}
+				lmu.Lock()
+				for ms, ids := range held {
+					for range ids {
+						lockers[ms].Unlock()
+					}
+					held[ms] = nil
+				}
+				lmu.Unlock()
+				time.Sleep(time.Millisecond)
+			}
+		}()
 		done := make(chan struct{})
 		go func() { wg.Wait(); close(done) }()
 		select {
@@ -215,6 +295,11 @@ func gen(rw bool) func(rng *rand.Rand, tier string) []string {
 			case r < 35 && nlocks < maxLocks:
 				out = append(out, "atrylock "+m())
 				nlocks++
+			case r < 38 && nlocks < maxLocks:
+				out = append(out, "llock "+m())
+				nlocks++
+			case r < 42:
+				out = append(out, "lunlock "+m())
 			case r < 55 && nlocks > 0:
 				out = append(out, fmt.Sprintf("release %d", rng.Intn(nlocks)))
 			case r < 62 && nlocks > 0:
@@ -234,6 +319,9 @@ func gen(rw bool) func(rng *rand.Rand, tier string) []string {
 		for i := 0; i < nlocks; i++ {
 			out = append(out, "settle", fmt.Sprintf("release %d", i))
 		}
+		for i := 0; i < nlocks; i++ {
+			out = append(out, "lunlock w", "lunlock r", "settle")
+		}
 		out = append(out, "quiesce")
 		return out
 	}
@@ -250,6 +338,8 @@ func init() {
 			// TryLock racing the critical sections of other calls
 			{"lock r", "atrylock w", "atrylock w", "arelease 0", "atrylock r", "atrylock w", "settle", "atrylock w", "lock r", "atrylock w", "quiesce"},
 			{"atrylock w", "atrylock w", "atrylock r", "atrylock w", "atrylock r", "settle", "atrylock r", "atrylock w", "lock w", "atrylock w", "quiesce"},
+			// lockers: shared RLocker/Locker, unlock order, hand-over to a plain Lock
+			{"llock r", "llock r", "settle", "llock w", "settle", "lunlock r", "quiesce", "lunlock r", "quiesce", "lock r", "settle", "lunlock w", "quiesce", "release 3", "quiesce"},
 			// reader crowd, then writer, trylocks in between
 			{"lock r", "lock r", "trylock r", "trylock w", "lock w", "settle", "trylock r", "release 0", "release 1", "release 2", "quiesce", "release 4", "quiesce"},
 		},
@@ -260,6 +350,7 @@ func init() {
 			{"lock w", "settle", "lock w", "lock w", "settle", "cancel 1", "release 0", "release 0", "quiesce", "release 2", "quiesce"},
 			{"trylock w", "trylock w", "lock w", "settle", "release 0", "settle", "trylock w", "release 2", "release 0", "quiesce"},
 			{"atrylock w", "atrylock w", "atrylock w", "lock w", "atrylock w", "settle", "arelease 0", "atrylock w", "atrylock w", "quiesce"},
+			{"llock w", "settle", "llock w", "lock w", "settle", "lunlock w", "quiesce", "lunlock w", "quiesce", "release 2", "quiesce"},
 		},
 	})
 }
